@@ -139,6 +139,7 @@ func extractArchiver() {
 	s.boolean("limiterKeysAgree", strings.Count(as, "globalBucketManager.Wait(req.URL.Host)") == 1 &&
 		strings.Count(as, "globalBucketManager.AdjustOnFailure(req.URL.Host,resp.StatusCode)") == 1 &&
 		strings.Count(as, "globalBucketManager.OnSuccess(req.URL.Host)") == 1 && strings.Count(as, "globalBucketManager.") == 3)
+	extractBody(s)
 	// body.go: every branch drains the body
 	pb := strings.ReplaceAll(src(fn("internal/pkg/archiver/body.go", "ProcessBody")), " ", "")
 	s.boolean("bodySniff2048", strings.Contains(pb, "copyWithTimeoutN(buffer,u.GetResponse().Body,2048,conn)"))
